@@ -23,7 +23,7 @@ RULE = ("exhaustive over identifiers up to a fixed length on the alphabet {a, B,
         "to_dict emits for it (CAMEL and SNAKE casing) as well as the original proto name must be mapped back by from_dict "
         "(classmethod and instance form) and from_pydict with the value preserved; (c) a sample goes through real protoc + "
         "plugin: the generated field names are the predicted ones and the module imports. "
-        "distinct = distinct identifiers.")
+        "(d) whole generated packages (types named like names the runtime imports, deprecated fields whose proto name is not their Python name, odd map / nested names, builtin-named fields under typing.310) are constructed and round-tripped through to_dict / from_dict, and every message-typed field that comes back must be an instance of the class declared for it; enum-member names whose remainder after the stripped prefix needs the guard; the field as oneof member / only field of a sub-message; another class sees every key first. distinct = distinct identifiers.")
 ASSUMPTIONS = [
     "an identifier is 'legal' if it matches protoc's [A-Za-z_][A-Za-z0-9_]*; the protoc sample confirms acceptance for the sampled ones",
     "name shapes are classified syntactically (digits after an underscore, one-letter words, capitals ...) for mechanism signatures",
